@@ -104,7 +104,10 @@ class BaseClient:
             device = self.get_device(msg.device)
 
         if isinstance(msg, message.DelProperty):
-            device = self.get_device(msg.device)
+            if msg.name:
+                device = self.get_device(msg.device)
+            else:
+                self.devices.pop(msg.device, None)
 
         if device:
             device.process_message(msg)
